@@ -249,17 +249,18 @@ impl<T> OneShotShared<T> {
       // EMPTY or WRITING
       // If empty and all senders are gone, it's disconnected.
       if current_state == STATE_EMPTY && self.sender_count.load(Ordering::Acquire) == 0 {
-        // Attempt to transition to CLOSED if not already done by last sender drop
-        self
-          .state
-          .compare_exchange(
-            STATE_EMPTY,
-            STATE_CLOSED,
-            Ordering::Relaxed,
-            Ordering::Relaxed,
-          )
-          .ok();
-        Err(TryRecvError::Disconnected)
+        // Attempt to transition to CLOSED if not already done by last sender drop.
+        // `current_state` is stale by now: the last sender may have completed a send
+        // between the two loads. Only a slot that is still EMPTY is disconnected.
+        match self.state.compare_exchange(
+          STATE_EMPTY,
+          STATE_CLOSED,
+          Ordering::AcqRel,
+          Ordering::Acquire,
+        ) {
+          Ok(_) => Err(TryRecvError::Disconnected),
+          Err(_) => self.try_recv(),
+        }
       } else {
         Err(TryRecvError::Empty) // Not ready yet, or senders still active / writing
       }
@@ -290,16 +291,20 @@ impl<T> OneShotShared<T> {
           }
           // Check again if all senders dropped AFTER deciding it's Empty
           if current_state == STATE_EMPTY && self.sender_count.load(Ordering::Acquire) == 0 {
-            self
+            if self
               .state
               .compare_exchange(
                 STATE_EMPTY,
                 STATE_CLOSED,
-                Ordering::Relaxed,
-                Ordering::Relaxed,
+                Ordering::AcqRel,
+                Ordering::Acquire,
               )
-              .ok();
-            return Poll::Ready(Err(RecvError::Disconnected));
+              .is_ok()
+            {
+              return Poll::Ready(Err(RecvError::Disconnected));
+            }
+            // A send completed after `current_state` was read: take the value.
+            continue;
           }
 
           self.receiver_waker.register(cx.waker());
